@@ -58,6 +58,7 @@ type cfgSpec struct {
 	Sampler      samplerSpec       `json:"sampler"`
 	StressRate   uint64            `json:"stress_rate,omitempty"`
 	KeptSize     uint              `json:"kept_size,omitempty"` // total kept-decision capacity (default 1000)
+	TxDelayUs    int64             `json:"tx_delay_us,omitempty"` // the upstream transmission takes this long (virtual) per span: a slow Honeycomb
 }
 
 type reloadSpec struct {
@@ -173,6 +174,7 @@ type colObs struct {
 	StopAt      time.Duration
 	StopOp      int
 	BufferedAtStop []string // exact buffer contents read just before Stop was called
+	QueuedAtStop   [][2]int // per worker: spans still waiting in the incoming / peer queue when Stop was called
 	Panic       string // panic in the harness root goroutine (incl. bubble deadlock = leaked goroutines)
 	Hostname    string
 	Tick        time.Duration
@@ -187,9 +189,13 @@ type recTransmission struct {
 	start time.Time
 	spans []fwdSpan
 	curOp int
+	delay time.Duration
 }
 
 func (r *recTransmission) snapshot(ev *types.Event, traceID string, isRoot bool, viaEvent bool) {
+	if r.delay > 0 {
+		time.Sleep(r.delay)
+	}
 	f := fwdSpan{Trace: traceID, At: time.Since(r.start), Rate: ev.SampleRate, APIKey: ev.APIKey, Dataset: ev.Dataset,
 		APIHost: ev.APIHost, IsRoot: isRoot, Fields: map[string]any{}, ViaEvent: viaEvent}
 	for k, v := range ev.Data.All() {
@@ -400,7 +406,7 @@ func runInBubble(c colCase, opt execOpts, obs *colObs) {
 	mock := buildMockConfig(c.Cfg)
 	cfg := vConfig{mock}
 	start := time.Now()
-	tx := &recTransmission{start: start}
+	tx := &recTransmission{start: start, delay: time.Duration(c.Cfg.TxDelayUs) * time.Microsecond}
 	peerTx := &recTransmission{start: start}
 	met := &metrics.MockMetrics{}
 	met.Start()
@@ -429,9 +435,13 @@ func runInBubble(c colCase, opt execOpts, obs *colObs) {
 		if stopped {
 			return
 		}
-		for _, w := range coll.VerifBufferedTraceIDs() {
+		// everything is durably blocked after Wait, so buffer and queues can be read consistently
+		// without a handshake that would let a worker move on
+		synctest.Wait()
+		for _, w := range coll.VerifBufferedTraceIDsQuiescent() {
 			obs.BufferedAtStop = append(obs.BufferedAtStop, w...)
 		}
+		obs.QueuedAtStop = coll.VerifQueueLens()
 		stopped = true
 		obs.Stopped = true
 		obs.StopAt = time.Since(start)
@@ -512,7 +522,16 @@ func runInBubble(c colCase, opt execOpts, obs *colObs) {
 			// first span came through the normal path therefore never takes the stress path.
 			if op.Via == "stress" {
 				if models[op.Trace] != nil {
-					a.Via = "incoming"
+					// a late span under stress for a trace that was decided normally is legal
+					// (ProcessSpanImmediately must follow the recorded decision); only a trace
+					// that is still buffered must not see relief switch on
+					for _, w := range coll.VerifBufferedTraceIDsQuiescent() {
+						for _, id := range w {
+							if id == tid {
+								a.Via = "incoming"
+							}
+						}
+					}
 				} else {
 					stressFirst[op.Trace] = true
 				}
